@@ -35,6 +35,9 @@ pub struct OracleState {
     pub bursts: u32,
     pub cur_g: usize,
     pub final_written: BTreeSet<(usize, usize)>,
+    pub observers: Vec<crate::observer::Observer>,
+    pub ext_sender: Option<(SignatureSecretKey, SigningIdentity)>,
+    pub ext_proposals: BTreeSet<u64>,
 }
 
 #[derive(Default)]
@@ -836,6 +839,18 @@ pub fn do_special(w: &mut World, kind: &str, a: u64, b: u64, c: u64) -> VResult<
         "byz" => do_byz_commit(w, a as usize, 0, b as u8, c as u8),
         "apply_detached" => do_apply_detached(w, a as usize, c as usize, b),
         "bad_join" => do_bad_join(w, a, b as usize, c as usize),
+        "observe" => crate::observer::do_observe(w, a as usize, b),
+        "obs_feed" => crate::observer::do_obs_feed(w, a as usize, b),
+        "obs_snapshot" => crate::observer::do_obs_snapshot(w, a as usize),
+        "obs_propose" => crate::observer::do_obs_propose(w, a as usize, b, c as usize),
+        "obs_corrupt" => {
+            let m = if c & 1 == 0 {
+                Mutation::Flip { pos: (c >> 4) as u32, bit: ((c >> 1) & 7) as u8 }
+            } else {
+                Mutation::Trunc { len: (c >> 4) as u32 }
+            };
+            crate::observer::do_obs_corrupt(w, (a & 1) as usize, b, &m)
+        }
         "burst" => {
             // C05: p sends b messages and then one more that overtakes them at every receiver
             let p = a as usize;
